@@ -251,11 +251,12 @@ async fn apply_remote_deletes(
             use tokio::io::AsyncWriteExt;
             let mut list = String::new();
             for rel in dels {
-                let _ = writeln!(list, "{}/{}", remote_root, rel.display());
+                // NUL-delimited: a file name may contain a newline
+                let _ = write!(list, "{}/{}\0", remote_root, rel.display());
             }
             if let Ok(mut child) = tokio::process::Command::new("ssh")
                 .arg(host)
-                .arg("xargs -d '\\n' rm -f --")
+                .arg("xargs -0 rm -f --")
                 .stdin(std::process::Stdio::piped())
                 .stdout(std::process::Stdio::null())
                 .stderr(std::process::Stdio::piped())
